@@ -17,6 +17,47 @@ CHECKS = {
         "while fault-freedom and the algebraic corner cases are full-domain. Programs (scoping, evaluation order, short circuit, Coq model): not decided.",
    ref="DESIGN 5/C02, 4.1", note=TB + " Signed wrap-around at -O0 for + - * unary- is an assumption (listed with sites).",
    tech="CBMC on the real vm_core_execute, one-step harness per opcode (case split over 15 operators), spec functions"),
+ "C05": dict(
+   cat="proof",
+   text="FRAGMENT (driver control flow): nano_virt `main` and nanoc `compile_file` (entry up to the transpile call) under contracts with every callee "
+        "a stub recording its effect in one ghost struct: a failed lexer / parser / import / type_check / codegen phase => return != 0, no artifact written, "
+        "nothing executed, for ALL callee behaviours; nanoc main returns compile_file's result. Completeness of the type checker's rule catalogue "
+        "(every ill-typed program makes type_check fail) is NOT decided.",
+   ref="DESIGN 5/C05, 10.5", note=TB + " --no-standard-checks in these driver harnesses (memory safety of the drivers is not the claim); writer/executor list assumed complete.",
+   tech="CBMC DFCC function + loop contracts on the real driver functions with effect-recording callee stubs"),
+ "C06": dict(
+   cat="proof",
+   text="run_shadow_tests under a loop contract with four inserted ghost assignments: return value == !(some evaluated shadow body left the failure counter > 0), "
+        "counter reset before each body, skipped (extern) tests not evaluated; compile_file: run_shadow_tests()==false => return != 0 before transpile_to_c / cc. "
+        "The direction 'all assertions hold => executable produced' is not decided (code behind the cut, C compiler outside the model).",
+   ref="DESIGN 5/C06, 10.5", note=TB + " eval_statement / contains_extern_calls replaced by contracts; allocation model for the report array stated in the evidence.",
+   tech="CBMC DFCC function + loop contracts with ghost statements on the real run_shadow_tests / compile_file"),
+ "C09": dict(
+   cat="proof",
+   text="FRAGMENT (lexer + depth guards): the real tokenize() under loop contracts for every NUL-terminated buffer up to the driver's 10 MB limit: all reads inside "
+        "[0,len], token stores within the (modelled) token array, termination (decreases on the main loop and all six scanning loops), result NULL-after-free or an "
+        "array ending in EOF; X over five first-byte classes (exhaustiveness checked), plus the unsplit query in the thorough tier. check_expression / check_statement "
+        "never exceed their depth limit and restore the counter on every path; parse_block's recursion counter is balanced (bounded stand-in). Parser memory safety "
+        "as a whole, process_imports and type-checker termination are NOT decided.",
+   ref="DESIGN 5/C09, 10.5", note=TB + " In-place realloc allocator model, nondeterministic ctype table with three stated facts, free() not modelling deallocation: listed in the evidence.",
+   tech="CBMC DFCC function + loop contracts with ghost statements on the real lexer.c / typechecker.c wrappers"),
+
+ "C10": dict(
+   cat="proof",
+   text="Exit status: nano_virt --run (reference), nano_vm run_standalone and the wrapper main text emitted by the real generator at check time are each verified "
+        "against ONE spec function of (VmResult, top of stack) with vm_execute/vm_get_result arbitrary (U). Round trip deserialize(serialize(m)) = m field by field and "
+        "serialise-again idempotence on the REAL functions with the REAL CRC are bounded stand-ins (module shape bound), never counted as proved.",
+   ref="DESIGN 5/C10", note=TB + " Unbounded round trip, output equality (structural: same TRAP_PRINT branch) and wrapper blob embedding are not decided.",
+   tech="CBMC DFCC contracts on the real exit paths; bounded CBMC run of the real serializer/deserializer pair"),
+ "C20": dict(
+   cat="proof",
+   text="FRAGMENT (runtime containers): every dyn_array operation (new, new_with_capacity, push, pop, get, set, remove_at, clear, reserve, clone, accessors; six scalar element "
+        "kinds as a case split, struct arrays per element size = bounded) and list_int operations enforced against contracts: representation invariant in and out, abstract "
+        "sequence view update with ghost indices (prefix kept, suffix shifted, element placed), explicit frames, no memory fault, no overflow in the size arithmetic under "
+        "capacity <= 2^40. Operation histories follow by per-operation inductiveness. The ARC code the transpiler emits for arbitrary programs is NOT decided.",
+   ref="DESIGN 5/C20, 10.5", note=TB + " memmove/memcpy and gc_alloc/gc_release contracts assumed; realloc-failure paths unchecked; list_int_insert and the other list_*.c files not reached.",
+   tech="CBMC DFCC function contracts on the real dyn_array.c / list_int.c, case split over element kinds"),
+
  "C08": dict(
    cat="proof",
    text="Per accessor: VM (ARR_GET/SET/POP/REMOVE, STRUCT_GET/SET, UNION_FIELD, TUPLE_GET: real one-step harness, index = the full int64 / u16 "
